@@ -4,6 +4,6 @@
 seeds=${1:-"2 3 4 5 6"}
 props=${2:-"C01 C02 C03 C05 C06 C07 C08 C09 C10 C11 C14 C15 C16 C18 C20"}
 for s in $seeds; do for p in $props; do
-  out=$(VERIF_SEED=$s timeout 1500 /venv/bin/python /verif/check.py $p --tier quick 2>&1 | grep -v Warn | grep -E "^(VIOLATION|OK|ERROR)|signature" | cut -c1-260)
+  out=$(VERIF_SEED=$s timeout 1500 /venv/bin/python $(dirname $(realpath $0))/../check.py $p --tier quick 2>&1 | grep -v Warn | grep -E "^(VIOLATION|OK|ERROR)|signature" | cut -c1-260)
   echo "seed=$s $p exit=$? :: $out"
 done; done
